@@ -2,6 +2,7 @@ package main
 
 import (
 	"bytes"
+	"encoding/binary"
 	"encoding/json"
 	"fmt"
 	"strings"
@@ -26,6 +27,13 @@ type storeOp struct {
 	// canonical text (util.StringToGUID, as when a file name of efivarfs is parsed), equal attributes; "copy" a copy of
 	// the definition whose GUID is a fresh copy of the pointed-to value
 	Desc string `json:"desc,omitempty"`
+	// S only - how the caller makes the signed update: "" Efivarfs.WriteSignedUpdate; "prepared": the caller signs it
+	// itself (signature.SignEFIVariable), looks at the returned value Prep times first (Marshal and Bytes, as when it is
+	// saved as an .auth file or its size is logged) and then hands it to WriteVar; the value object is kept.
+	// K = "A" (again) hands the value object kept by the most recent prepared update of this variable to WriteVar once
+	// more (the update is applied again after something else was written); without one it does nothing ("skip").
+	How  string `json:"how,omitempty"`
+	Prep int    `json:"prep,omitempty"`
 }
 
 // the same variable as storeVar(name), described by a value the caller built
@@ -138,6 +146,7 @@ func init() {
 		var helds []heldRead
 		var heldOut []string
 		changed := ""
+		prepared := map[string]efivar.Marshallable{} // per variable: the signed update the caller made itself and kept
 		for i, op := range ops {
 			v := storeVarDesc(op.Var, op.Desc)
 			switch op.K {
@@ -156,7 +165,28 @@ func init() {
 				if db, derr := signature.ReadSignatureDatabase(bytes.NewReader(unhx(op.Value))); isSecureBootVar(op.Var) && derr == nil {
 					m = &db
 				}
+				if op.How == "prepared" {
+					_, sm, err := signature.SignEFIVariable(v, m, key, cert)
+					if err != nil {
+						out = append(out, "sign-"+errCls(err))
+						break
+					}
+					for k := 0; k < op.Prep; k++ {
+						var b bytes.Buffer
+						sm.Marshal(&b)
+						_ = sm.Bytes()
+					}
+					prepared[op.Var] = sm
+					out = append(out, errCls(fs.WriteVar(v, sm)))
+					break
+				}
 				out = append(out, errCls(fs.WriteSignedUpdate(v, m, key, cert)))
+			case "A":
+				if sm, ok := prepared[op.Var]; ok {
+					out = append(out, errCls(fs.WriteVar(v, sm)))
+				} else {
+					out = append(out, "skip")
+				}
 			case "G":
 				out = append(out, storeRead(fs, op.Var, op.Desc))
 				hv := &holdValue{}
@@ -221,15 +251,37 @@ func c12Eval(c *Ctx, cs Case) {
 		last[k] = v
 	}
 	var want []string
+	preparedVal := map[string]string{} // per variable: the payload of the signed update the caller kept
+	// ordinary variables written as signed updates: nothing is removed, the value of the write is the signed update itself
+	// (authentication descriptor || payload).  Its bytes differ from call to call (timestamp, signature); a read must
+	// return a descriptor by extent (16-byte timestamp, WIN_CERTIFICATE delimited by its dwLength) followed by exactly
+	// the payload.  wroteAt[var] is the index of that write, blobOf[index] what the reads after it returned.
+	wroteAt := map[string]int{}
+	blobOf := map[int]string{}
 	for i, op := range ops {
 		if i >= len(outs) {
 			break
+		}
+		if op.K == "A" {
+			// the kept signed update written again: a write of that payload
+			pv, ok := preparedVal[op.Var]
+			if !ok {
+				want = append(want, "skip")
+				continue
+			}
+			op.K, op.Value = "S", pv
+		} else if op.K == "S" && op.How == "prepared" {
+			preparedVal[op.Var] = op.Value
 		}
 		switch op.K {
 		case "W", "S":
 			want = append(want, "ok")
 			if outs[i] == "ok" {
 				last[op.Var] = op.Value
+				delete(wroteAt, op.Var)
+				if op.K == "S" && !isSecureBootVar(op.Var) {
+					wroteAt[op.Var] = i
+				}
 			} else if outs[i] != "bad-value" {
 				fail(fmt.Sprintf("op %d (%s %s): a write to the in-memory store failed", i, op.K, op.Var), outs[i], "ok", "")
 			}
@@ -240,6 +292,27 @@ func c12Eval(c *Ctx, cs Case) {
 				if outs[i] != "err" {
 					// a variable that was never written does not exist
 					fail(fmt.Sprintf("op %d: reading a variable that was never written succeeded", i), outs[i], "err", "")
+				}
+				continue
+			}
+			if at, signedOrd := wroteAt[op.Var]; signedOrd {
+				got := unhx(strings.TrimPrefix(outs[i], "ok "))
+				okExtent := strings.HasPrefix(outs[i], "ok ") && len(got) >= 40
+				if okExtent {
+					dw := int(binary.LittleEndian.Uint32(got[16:]))
+					okExtent = dw >= 24 && 16+dw <= len(got) && bytes.Equal(got[16+dw:], unhx(v))
+				}
+				if prev, seen := blobOf[at]; okExtent && seen && prev != hx(got) {
+					okExtent = false // two reads after one write differ
+				}
+				want = append(want, "ok <descriptor> "+v)
+				if !okExtent {
+					fail(fmt.Sprintf("op %d: reading the ordinary variable %s after a signed update does not return the signed update (authentication descriptor followed by the payload) written by op %d", i, op.Var, at), outs[i], "ok <descriptor> "+v, "")
+					continue
+				}
+				blobOf[at] = hx(got)
+				if h, has := heldAt[i]; !has || hx(unhx(h)) != hx(got) {
+					fail(fmt.Sprintf("op %d: reading %s with an Unmarshallable that keeps the bytes it is handed does not return the value of the most recent write", i, op.Var), h, hx(got), "")
 				}
 				continue
 			}
@@ -269,13 +342,37 @@ func c12Eval(c *Ctx, cs Case) {
 	// correspondence with the Lean store model
 	c.Trace()
 	enc := []string{}
-	for _, op := range ops {
+	modelPrepared := map[string]string{}
+	var tieOuts []string
+	for i, op := range ops {
+		if op.K == "A" {
+			// for the model a kept update written again is a signed write of its payload; one that does not exist is no operation
+			pv, ok := modelPrepared[op.Var]
+			if !ok {
+				continue
+			}
+			op.K, op.Value = "S", pv
+		} else if op.K == "S" && op.How == "prepared" {
+			modelPrepared[op.Var] = op.Value
+		}
+		if i < len(outs) {
+			tieOuts = append(tieOuts, outs[i])
+		}
+		if op.K == "S" && !isSecureBootVar(op.Var) {
+			// for the model, a signed update of an ordinary variable is a plain write of the signed update's bytes (as
+			// the reads after it gave them; the payload when nothing read it)
+			op.K = "W"
+			if b, seen := blobOf[i]; seen {
+				op.Value = b
+			}
+		}
 		v := op.Value
 		if v == "" {
 			v = "-"
 		}
 		enc = append(enc, op.K+","+op.Var+","+v)
 	}
+	resOut = strings.Join(tieOuts, "/")
 	pres := []string{}
 	for k, v := range pre {
 		if v == "" {
@@ -286,6 +383,9 @@ func c12Eval(c *Ctx, cs Case) {
 	ps := "-"
 	if len(pres) > 0 {
 		ps = strings.Join(pres, ";")
+	}
+	if len(enc) == 0 {
+		return
 	}
 	m := c.Drv.Ask("store.history", ps, strings.Join(enc, ";"))
 	if m != resOut {
@@ -313,10 +413,54 @@ func c12Gen(c *Ctx) {
 		hx(append(encodeList(tSHA256, nil, 48, [][2][]byte{{u.owners[0], u.data[0]}}), encodeList(tSHA384, nil, 64, [][2][]byte{{u.owners[1], append(append([]byte{}, u.data[1]...), u.data[0][:16]...)}})...)),
 	}
 	raws := []string{"-", "01", hx(randBytes(c, 3)), hx(randBytes(c, 40)), hx(randBytes(c, 300))}
+	// values that repeat in LENGTH but not in content: for every non-empty value above a second value of exactly the same
+	// length (the same lists with the entries' owners and hashes exchanged; raw bytes complemented)
+	sibling := map[string]string{}
+	pair := func(a, b string) {
+		if a != b && len(a) == len(b) {
+			sibling[a], sibling[b] = b, a
+		}
+	}
+	dbSibs := []string{
+		"-",
+		hx(encodeList(tSHA256, nil, 48, [][2][]byte{{u.owners[1], u.data[1]}})),
+		hx(encodeList(tSHA256, nil, 48, [][2][]byte{{u.owners[1], u.data[1]}, {u.owners[0], u.data[0]}})),
+		hx(append(encodeList(tX509, nil, len(u.data[4])+16, [][2][]byte{{u.owners[1], u.data[4]}}), encodeList(tSHA256, nil, 48, [][2][]byte{{u.owners[0], u.data[0]}})...)),
+		hx(encodeList(tX509, nil, len(u.data[7])+16, [][2][]byte{{u.owners[1], u.data[7]}})),
+		hx(encodeList(tSHA1, nil, 36, [][2][]byte{{u.owners[1], u.data[1][:20]}})),
+		hx(append(encodeList(tSHA256, nil, 48, [][2][]byte{{u.owners[1], u.data[1]}}), encodeList(tSHA384, nil, 64, [][2][]byte{{u.owners[0], append(append([]byte{}, u.data[0]...), u.data[1][:16]...)}})...)),
+	}
+	for k := range dbs {
+		pair(dbs[k], dbSibs[k])
+	}
+	for _, r := range raws {
+		b := unhx(r)
+		for k := range b {
+			b[k] = ^b[k]
+		}
+		pair(r, hx(b))
+	}
+	c.Note("values_with_a_same_length_sibling", len(sibling)/2)
 	vars := []string{"PK", "KEK", "db", "dbx", "OrdA", "OrdB", "Ord0"}
+	nSame, nPrepared, nAgain, nOrdSigned := 0, 0, 0, 0
+	defer func() {
+		c.Note("operations_generated", fmt.Sprintf("read/same-length-write/read triples %d; signed updates made by the caller itself and kept %d; kept updates written again %d; signed updates of ordinary variables %d", nSame, nPrepared, nAgain, nOrdSigned))
+	}()
 	for i := 0; i < c.N(150, 10000) && c.NFailures() < 6; i++ {
 		n := 2 + c.Rng.Intn(c.P(9, 29))
 		var ops []interface{}
+		pre := map[string]interface{}{}
+		if c.Rng.Intn(3) == 0 {
+			pre["db"] = dbs[1+c.Rng.Intn(len(dbs)-1)]
+			if c.Rng.Intn(2) == 0 {
+				pre["OrdA"] = raws[c.Rng.Intn(len(raws))]
+			}
+		}
+		lastVal := map[string]string{} // what the generator last wrote to each variable
+		for k, v := range pre {
+			lastVal[k] = v.(string)
+		}
+		kept := map[string]bool{} // variables for which the caller keeps a signed update it made itself
 		for j := 0; j < n; j++ {
 			v := vars[c.Rng.Intn(len(vars))]
 			if i%5 == 4 { // every fifth history stays on the ordinary variables
@@ -331,16 +475,45 @@ func c12Gen(c *Ctx) {
 			if isSecureBootVar(v) {
 				val = dbs[c.Rng.Intn(len(dbs))]
 			}
+			// one time in four the new value is a different value of exactly the length of the one the variable holds, and
+			// the variable is read before and after the write
+			sameLen := false
+			if sib, ok := sibling[lastVal[v]]; ok && c.Rng.Intn(4) == 0 {
+				val, sameLen = sib, true
+			}
 			var op map[string]interface{}
 			switch k := c.Rng.Intn(10); {
 			case k < 4:
 				op = map[string]interface{}{"k": "W", "var": v, "value": val}
 			case k < 5 && !c.Thorough && i%4 != 0:
 				op = map[string]interface{}{"k": "G", "var": v}
-			case k < 6 && isSecureBootVar(v): // signed updates of secure-boot variables (the property's domain)
+			case k < 6 && (isSecureBootVar(v) || c.Rng.Intn(3) == 0): // signed updates: of secure-boot variables (stored without the descriptor) and, less often, of ordinary ones (stored as they are)
 				op = map[string]interface{}{"k": "S", "var": v, "value": val, "key": 0}
+				// every second one is made by the caller itself (signature.SignEFIVariable), looked at 0..2 times and then
+				// handed to WriteVar; the caller keeps it
+				if c.Rng.Intn(2) == 0 {
+					op["how"], op["prep"] = "prepared", c.Rng.Intn(3)
+					kept[v] = true
+					nPrepared++
+				}
+				if !isSecureBootVar(v) {
+					nOrdSigned++
+				}
+			case k < 7 && kept[v]: // the kept signed update of this variable is written again
+				op = map[string]interface{}{"k": "A", "var": v}
+				nAgain++
 			default:
 				op = map[string]interface{}{"k": "G", "var": v}
+			}
+			if op["k"] == "W" || op["k"] == "S" {
+				lastVal[v] = val
+				if sameLen {
+					ops = append(ops, map[string]interface{}{"k": "G", "var": v})
+					nSame++
+				}
+			}
+			if op["k"] == "A" {
+				delete(lastVal, v) // the generator does not track what the kept update holds
 			}
 			// a variable is its name and vendor GUID: in two histories out of three some operations describe the
 			// variable with an Efivar value the caller built (equal name, GUID, attributes) instead of the
@@ -351,12 +524,22 @@ func c12Gen(c *Ctx) {
 				}
 			}
 			ops = append(ops, op)
-		}
-		pre := map[string]interface{}{}
-		if c.Rng.Intn(3) == 0 {
-			pre["db"] = dbs[1+c.Rng.Intn(len(dbs)-1)]
-			if c.Rng.Intn(2) == 0 {
-				pre["OrdA"] = raws[c.Rng.Intn(len(raws))]
+			if sameLen && (op["k"] == "W" || op["k"] == "S") {
+				ops = append(ops, map[string]interface{}{"k": "G", "var": v})
+			}
+			if op["how"] == "prepared" && c.Rng.Intn(2) == 0 {
+				// ... and applies it again after another value was written in between (or at once): the variable then holds
+				// the update's payload again
+				if c.Rng.Intn(3) != 0 {
+					other := raws[c.Rng.Intn(len(raws))]
+					if isSecureBootVar(v) {
+						other = dbs[c.Rng.Intn(len(dbs))]
+					}
+					ops = append(ops, map[string]interface{}{"k": "W", "var": v, "value": other})
+				}
+				ops = append(ops, map[string]interface{}{"k": "A", "var": v}, map[string]interface{}{"k": "G", "var": v})
+				nAgain++
+				delete(lastVal, v)
 			}
 		}
 		cs := Case{"op": "store-history", "pre": pre, "ops": ops}
@@ -369,7 +552,7 @@ func c12Gen(c *Ctx) {
 
 func init() {
 	register("C12", &PropDef{
-		Rule:   "histories of 2..10 (thorough ..30) operations over {PK, KEK, db, dbx, two ordinary variables, one ordinary variable declared with attribute mask 0}: plain writes, signed updates (RSA-2048) and reads, each operation describing its variable either with the package-level efivar definition or (in two histories out of three, mixed within the history) with a caller-built Efivar value of equal name, GUID (util.StringToGUID of the canonical text, or a copy of the GUID value) and attributes, reads then going through GetVar with that description; values that grow, shrink (to the empty database / empty value) and repeat (5 databases from empty to two lists with certificates, 5 raw values from 0 to 300 bytes); empty and pre-populated stores (With(...)); run in a worker process because a write may end the process on an unrepaired tree. Every read is compared with the register oracle and the Lean store model. Held results: every read operation also reads the variable through the same store with a caller-supplied Unmarshallable that keeps the bytes it is handed (no copy); the held value must be the value of the most recent write when the read returns and must still be that value after every later operation of the history (reads and writes of other variables, and of the same variable after a new write). Non-trivial: at least two operations; distinct = distinct histories.",
+		Rule:   "histories of 2..10 (thorough ..30) operations over {PK, KEK, db, dbx, two ordinary variables, one ordinary variable declared with attribute mask 0}: plain writes, signed updates (RSA-2048) and reads, each operation describing its variable either with the package-level efivar definition or (in two histories out of three, mixed within the history) with a caller-built Efivar value of equal name, GUID (util.StringToGUID of the canonical text, or a copy of the GUID value) and attributes, reads then going through GetVar with that description; values that grow, shrink (to the empty database / empty value) and repeat (7 databases from empty to two lists with certificates and list types the decoder does not handle, 5 raw values from 0 to 300 bytes), and values that repeat in LENGTH but not in content (for every non-empty value a second one of exactly the same length; one write in four of a variable that holds such a value writes its same-length sibling and the variable is read immediately before and after: read / write of a different value of the same length / read on one store); signed updates are made either by Efivarfs.WriteSignedUpdate or (every second one) by the caller itself with signature.SignEFIVariable, whose returned value object is marshalled 0..2 times (Marshal and Bytes, as when it is saved or measured) before it is handed to WriteVar and is KEPT: in half of these histories the kept object is handed to WriteVar again (operation A), at once or after another value was written to the variable, and the variable must then hold the update's payload again; one signed update in about five goes to an ORDINARY variable, for which nothing is removed: a read must return an authentication descriptor (by extent) followed by exactly the payload, the same bytes on every read until the next write; empty and pre-populated stores (With(...)); run in a worker process because a write may end the process on an unrepaired tree. Every read is compared with the register oracle and the Lean store model. Held results: every read operation also reads the variable through the same store with a caller-supplied Unmarshallable that keeps the bytes it is handed (no copy); the held value must be the value of the most recent write when the read returns and must still be that value after every later operation of the history (reads and writes of other variables, and of the same variable after a new write). Non-trivial: at least two operations; distinct = distinct histories.",
 		Assume: []string{"variables without the APPEND_WRITE attribute (the property's register semantics)", "values of secure-boot variables are well-formed signature databases (any list type of ValidEFISignatureSchemes, including types the decoder does not handle; those are compared as bytes)"},
 		Eval:   c12Eval, Gen: c12Gen,
 	})
